@@ -304,6 +304,40 @@ pub fn run(ctx: &mut Ctx) {
         }
     }
     ctx.count("crate_descriptions", descs);
+    // advisory sanitizer pass (DESIGN.md 7): a small slice of the same workloads under Miri.
+    // UB reports in reached dependency code are notes, not verdicts of this property.
+    if ctx.tier == Tier::Thorough && ctx.shard == 0 && std::env::var("VERIF_SKIP_MIRI").is_err() {
+        ctx.begin_case("miri advisory slice");
+        let t0 = std::time::Instant::now();
+        let out = std::process::Command::new("cargo")
+            .args(["+nightly", "miri", "run", "--offline", "--", "miri-slice", "2", "40"])
+            .current_dir(verif_dir().join("harness"))
+            .env("MIRIFLAGS", "-Zmiri-disable-isolation")
+            .env("CARGO_NET_OFFLINE", "true")
+            .output();
+        match out {
+            Ok(o) => {
+                let text = format!("{}\n{}", String::from_utf8_lossy(&o.stdout), String::from_utf8_lossy(&o.stderr));
+                let ub = text.matches("Undefined Behavior").count() as u64;
+                ctx.count("miri_ub_reports", ub);
+                if let Some(line) = text.lines().find(|l| l.starts_with("MIRI-SLICE")) {
+                    let num = |key: &str| -> u64 { line.split(key).nth(1).and_then(|r| r.split_whitespace().next()).and_then(|n| n.parse().ok()).unwrap_or(0) };
+                    ctx.count("miri_cases", num("ok=") + num("panics="));
+                    ctx.count("miri_panics", num("panics="));
+                    if num("panics=") > 0 {
+                        ctx.note("SANITIZER-NOTE: a call panicked under Miri (the native workloads judge panics)".to_string());
+                    }
+                } else {
+                    ctx.note(format!("SANITIZER-NOTE: the Miri slice did not complete: {}", text.lines().rev().take(3).collect::<Vec<_>>().join(" | ")));
+                }
+                if ub > 0 {
+                    ctx.note(format!("SANITIZER-NOTE: Miri reported undefined behaviour in reached code: {}", text.lines().find(|l| l.contains("Undefined Behavior")).unwrap_or("")));
+                }
+                ctx.count("miri_seconds", t0.elapsed().as_secs());
+            }
+            Err(e) => ctx.note(format!("SANITIZER-NOTE: Miri could not be started: {e}")),
+        }
+    }
     ctx.count("indent_rule_checked", indent_checked);
     record(ctx, &obs);
 }
